@@ -60,7 +60,7 @@ def check(pid, tier):
     traces = [t for t in run_configs([(c, None) for c in cfgs]) if "harness_error" not in t]
     acc, tot, bad, gen, _ = tlc.validate("Sched_Trace", traces)
     ev.add_traces("Sched_Trace/delay families", acc, tot, gen)
-    ASSUMED = {"choice", "avail", "served", "false-cycle", "false-cycle-zone"}
+    ASSUMED = {"choice", "avail", "served", "served-as-modelled", "false-cycle", "false-cycle-zone"}
     for k, verdict in sorted(bad.items()):
         p = sched_property(verdict, traces[k]["cfg"])
         # "the shifted time is both what the driver assumes when scheduling and what is actually
